@@ -75,10 +75,10 @@ class Ctx(object):
     # ---- finish
     def finish(self):
         from .model import AnalysisError
+        vacuous = None
         for rid, r in sorted(self.rules.items()):
             if r['instances'] < r['floor']:
-                raise AnalysisError('rule %s went vacuous: %d instances, floor %d (%s)' % (
-                    rid, r['instances'], r['floor'], r['desc']))
+                vacuous = 'rule %s went vacuous: %d instances, floor %d (%s)' % (rid, r['instances'], r['floor'], r['desc'])
         known = load_known()
         active = {}
         for e in known.get('findings', []):
@@ -92,6 +92,9 @@ class Ctx(object):
                 matched.append((f, e))
             else:
                 unknown.append(f)
+        if vacuous and not unknown:
+            # a rule that examined too little cannot vouch for the property (violations found elsewhere are still reported)
+            raise AnalysisError(vacuous)
         for f, e in matched:
             print('KNOWN-FINDING: property=%s %s %s %s :: %s [%s]' % (
                 f.prop, f.rule, f.func, f.construct, f.message, e.get('id', '?')))
